@@ -120,7 +120,14 @@ def unabs(t):
 
 
 def col_of(t, base):
-    """base[:, C] -> C ;  base -> 'all' ; else None"""
+    """base[:, C] -> C ;  base -> 'all' ; else None (a fresh copy of the column is the column)"""
+    for _ in range(4):
+        if t[0] == "new" and t[2][0] == "call" and t[2][1] in COPY_CALLS and t[2][2]:
+            t = t[2][2][0]
+        elif t[0] == "call" and t[1] in COPY_CALLS and len(t[2]) == 1 and not t[3]:
+            t = t[2][0]
+        else:
+            break
     if t == base:
         return "all"
     if t[0] == "idx" and t[1] == base and t[2][0] == "tup" and len(t[2]) == 3 and t[2][1] == FULL and is_const(t[2][2]):
@@ -159,6 +166,92 @@ def _subterms(t, out=None):
             if isinstance(x, tuple):
                 _subterms(x, out)
     return out
+
+
+def colcanon(t, tables):
+    """one spelling for "column c of a two-dimensional table" and "rows J of that column": X[:, c] / X[J, c].  `tables` maps the (normalised)
+    tables of the rule to their number of columns (None when not known).  X.T[c], np.take(X, c, axis=1), X.take(c, axis=1), X[..., c],
+    a negative c, np.asarray(X), X[J][:, c], X[:, c][J], X[:, c].take(J) are rewritten; everything else is left as it is"""
+    if not isinstance(t, tuple) or not t or t[0] in ("c", "s", "g", "fn"):
+        return t
+    if t[0] == "call":
+        t = ("call", t[1], tuple(colcanon(a, tables) for a in t[2]), tuple((k, colcanon(v, tables)) for k, v in t[3]))
+    else:
+        t = (t[0],) + tuple(colcanon(a, tables) if isinstance(a, tuple) else a for a in t[1:])
+    if t in tables:
+        return t
+
+    def cnum(c, tab):
+        if is_const(c) and isinstance(c[1], int) and not isinstance(c[1], bool):
+            n = tables.get(tab)
+            return ("c", c[1] % n) if (c[1] < 0 and n) else (c if c[1] >= 0 else None)
+        return None
+
+    def is_rows(j):
+        return j[0] not in ("tup", "slice", "c") and not (j[0] == "call" and j[1] == "slice")
+
+    def column(x):
+        """(table, c) when x is column c of a table"""
+        if x[0] in ("idx", "ld") and x[1] in tables and x[2][0] == "tup" and len(x[2]) == 3 and x[2][1] == FULL and cnum(x[2][2], x[1]) is not None:
+            return x[1], cnum(x[2][2], x[1])
+        return None
+
+    if t[0] == "call" and t[1] in ("np.asarray", "np.asanyarray", "np.atleast_2d", "np.ascontiguousarray") and len(t[2]) == 1 and not t[3] and t[2][0] in tables:
+        return t[2][0]
+    if t[0] == "call" and t[1] in ("np.take", ".take") and len(t[2]) >= 2:
+        kw = dict(t[3])
+        axis = t[2][2] if len(t[2]) >= 3 else kw.get("axis")
+        x, j = t[2][0], t[2][1]
+        if x in tables and axis in (("c", 1), ("c", -1)) and cnum(j, x) is not None and len(t[2]) + len(kw) == 3:
+            return ("idx", x, ("tup", FULL, cnum(j, x)))
+        col = column(x)
+        if col is not None and axis in (None, ("c", 0)) and is_rows(j) and len(t[2]) + len(kw) <= 3:
+            return ("idx", col[0], ("tup", j, col[1]))
+    if t[0] in ("idx", "ld"):
+        b, i = t[1], t[2]
+        if b[0] == "attr" and b[2] == "T" and b[1] in tables:
+            if cnum(i, b[1]) is not None:
+                return ("idx", b[1], ("tup", FULL, cnum(i, b[1])))
+            if i[0] == "tup" and len(i) == 3 and cnum(i[1], b[1]) is not None:
+                return ("idx", b[1], ("tup", i[2], cnum(i[1], b[1])))
+        if b in tables and i[0] == "tup" and len(i) == 3 and cnum(i[2], b) is not None and (i[1] == ("c", Ellipsis) or i[2] != cnum(i[2], b)):
+            return ("idx", b, ("tup", FULL if i[1] == ("c", Ellipsis) else i[1], cnum(i[2], b)))
+        col = column(b)
+        if col is not None and is_rows(i):
+            return ("idx", col[0], ("tup", i, col[1]))
+        if b[0] in ("idx", "ld") and b[1] in tables and is_rows(b[2]) and i[0] == "tup" and len(i) == 3 and i[1] == FULL and cnum(i[2], b[1]) is not None:
+            return ("idx", b[1], ("tup", b[2], cnum(i[2], b[1])))
+    return t
+
+
+def canon_paths(paths, tables):
+    """the rules of this module read every value through P.norm: give them the canonical column spelling"""
+    for P in paths:
+        plain = P.norm
+        P.norm = (lambda t, _d=0, _n=plain: colcanon(_n(t, _d), tables) if _d == 0 else _n(t, _d))
+    return paths
+
+
+UNDERSTOOD_CALLS = {"nan_argmax", "nan_argmin", ".nonzero", ".copy", "copy.copy", "list", "np.array", "np.copy", "copy.deepcopy", "np.where", "<ListComp>",
+                    "range", "len", "slice", "float"}
+
+
+def opaque_in(t):
+    """the value contains something the rules of this module have no model of (a call that was not followed, a transposed operand)"""
+    if not isinstance(t, tuple) or not t or t[0] in ("c", "s", "g", "fn"):
+        return False
+    if t[0] == "call":
+        return t[1] not in UNDERSTOOD_CALLS or any(opaque_in(a) for a in t[2]) or any(opaque_in(v) for _, v in t[3])
+    if t[0] == "attr" and t[2] in ("T", "flat", "real", "imag"):
+        return True
+    return any(opaque_in(a) for a in t[1:] if isinstance(a, tuple))
+
+
+def soft(ok, *terms):
+    """a failed comparison is a proof only when the value is written with constructs the rule understands; otherwise it is undecided"""
+    if ok is False and any(opaque_in(t) for t in terms):
+        return None
+    return ok
 
 
 def is_nan(t):
@@ -209,6 +302,10 @@ def _extrema(ctx, ncol):
     paths = good_paths(ctx, I)
     for P in paths:
         P.events = [_masked_store(P, e) for e in P.events]
+    CUR_, MM_ = ("s", cur), ("s", mm)
+    tables = {("attr", CUR_, "ext"): 2, ("attr", CUR_, "ext_x"): 2, ("attr", MM_, "ext"): ncol, ("attr", MM_, "ext_x"): ncol}
+    tables.update({("attr", CUR_, x): None for x in ("mx", "mn", "mx_x", "mn_x")})
+    canon_paths(paths, tables)
     return fn, I, paths, (cur, mm, mxc, mnc, cnum)
 
 
@@ -303,7 +400,7 @@ def r1_roles(ctx):
                     else:
                         ok = ok and col_of(v, src) == want_col
                     nrec += 1
-                    A.req(key, ok, e.node, {"index": show(P.norm(e.index)), "value": show(v), "mm.ext_x is None": nox})
+                    A.req(key, soft(bool(ok), v, P.norm(e.index)), e.node, {"index": show(P.norm(e.index)), "value": show(v), "mm.ext_x is None": nox})
             elif nocase is True:
                 A.req(f"extrema [{arm}]: no per-case record is written when casenum is None", not recs, fn, nontrivial=False)
             # ---- first case
@@ -351,19 +448,19 @@ def r1_roles(ctx):
                 a_col, b_col = col_of(a_, EXT), col_of(b_, MEXT)
                 ok = a_col == role
                 A.req(f"extrema [{arm}]: the rows of the stored {rname} column that get replaced are selected by comparing against that column only "
-                      f"(`curext.ext[:, {role}]`)", ok, e.node,
+                      f"(`curext.ext[:, {role}]`)", soft(ok, a_), e.node,
                       None if ok else f"selector compares against {'both stored columns (broadcast)' if a_col == 'all' else show(a_)}: a new value that beats only the "
                                       f"stored {'min' if role == 0 else 'max'} also overwrites the stored {rname}; witness: one row, cases 5, 3, 4 -> stored extreme 4, true maximum 5 lost",
                       fkey=f"C16-R1|extrema|{arm}|{rname} selector reads column {a_col}")
                 okb = b_col == want_b or (ncol == 1 and b_col == "all")
-                A.req(f"extrema [{arm}]: the {rname} selector reads column {want_b} of the incoming data", okb, e.node, show(b_))
+                A.req(f"extrema [{arm}]: the {rname} selector reads column {want_b} of the incoming data", soft(okb, b_), e.node, show(b_))
                 if ncol == 1:
-                    A.req(f"extrema [one-column]: the {rname} comparison is on absolute values (sign kept on store)", a_abs and b_abs, e.node,
+                    A.req(f"extrema [one-column]: the {rname} comparison is on absolute values (sign kept on store)", soft(a_abs and b_abs, a_, b_), e.node,
                           show(sel))
                 else:
                     A.req(f"extrema [two-column]: the {rname} comparison is on signed values", not a_abs and not b_abs, e.node, show(sel))
                 ok = at_rows(v, MEXT, J, want_b)
-                A.req(f"extrema [{arm}]: the stored {rname} value is column {want_b} of the incoming data at the same rows", ok, e.node, show(v))
+                A.req(f"extrema [{arm}]: the stored {rname} value is column {want_b} of the incoming data at the same rows", soft(ok, v), e.node, show(v))
                 # labels
                 lab = [(x, tg) for x, tg in evs if x.kind == "store" and tg[0] == "attr" and tg[1] == CUR and tg[2] in ("maxcase", "mincase")
                        and P.norm(x.index)[0] == "elem" and same_rows(P.norm(x.index)[1], J)]
@@ -379,7 +476,7 @@ def r1_roles(ctx):
                     want_src = mxc if (role == 0 or ncol == 1 or nomin is True) else mnc
                     ok = lv[0] == "idx" and lv[2] == P.norm(x.index) and content_root(lv[1]) == ("s", want_src)
                     A.req(f"extrema [{arm}]: the label for the {rname} update is the incoming "
-                          f"{'maxcase' if (role == 0 or ncol == 1) else 'mincase (maxcase when mincase is None)'} label of the same row", ok, x.node, show(lv))
+                          f"{'maxcase' if (role == 0 or ncol == 1) else 'mincase (maxcase when mincase is None)'} label of the same row", soft(ok, lv), x.node, show(lv))
                 # abscissa: the store into the abscissa table at the same rows (matched by the row selector, not by statement order); when
                 # the running table has no abscissae yet the whole incoming table is taken over (a fresh copy)
                 key = f"extrema [{arm}]: the abscissa of the {rname} is moved with it (column {want_b} of mm.ext_x into column {role} of curext.ext_x at the same rows)"
@@ -405,7 +502,7 @@ def r1_roles(ctx):
                         ok = ok and is_nan(xv)
                     else:
                         ok = ok and at_rows(xv, MEXTX, J, want_b)
-                    A.req(key, ok, x.node, {"index": show(xi), "value": show(xv)})
+                    A.req(key, soft(bool(ok), xi, xv), x.node, {"index": show(xi), "value": show(xv)})
             if len(groups) == 2:
                 A.req(f"extrema [{arm}]: one block updates the max column, the other the min column",
                       None if (unplaced and seen_roles != {0, 1}) else seen_roles == {0, 1}, fn, sorted(seen_roles))
@@ -467,15 +564,15 @@ def _first_case(A, P, arm, ncol, fn, CUR, MM, mxc, mnc, nox, nomin):
         A.req("extrema [one-column]: the first case fills both abscissa columns from the single incoming abscissa column (None when there is none)", ok,
               vals["ext_x"].node, show(v["ext_x"]))
     else:
-        A.req("extrema [two-column]: the first case takes the incoming table as the running extrema", content_root(v["ext"]) == MEXT, vals["ext"].node,
+        A.req("extrema [two-column]: the first case takes the incoming table as the running extrema", soft(content_root(v["ext"]) == MEXT, content_root(v["ext"])), vals["ext"].node,
               show(v["ext"]))
         A.req("extrema [two-column]: the first case takes the incoming abscissa table (None when there is none)",
-              content_root(v["ext_x"]) == MEXTX or (nox is True and v["ext_x"] == NONE), vals["ext_x"].node, show(v["ext_x"]))
-    A.req(f"extrema [{arm}]: the first case labels every max with the incoming maxcase", content_root(v["maxcase"]) == ("s", mxc), vals["maxcase"].node,
+              soft(content_root(v["ext_x"]) == MEXTX or (nox is True and v["ext_x"] == NONE), content_root(v["ext_x"])), vals["ext_x"].node, show(v["ext_x"]))
+    A.req(f"extrema [{arm}]: the first case labels every max with the incoming maxcase", soft(content_root(v["maxcase"]) == ("s", mxc), content_root(v["maxcase"])), vals["maxcase"].node,
           show(v["maxcase"]))
     want = mxc if (ncol == 1 or nomin is True) else mnc
     A.req(f"extrema [{arm}]: the first case labels every min with the incoming {'maxcase' if ncol == 1 else 'mincase (maxcase when mincase is None)'}",
-          content_root(v["mincase"]) == ("s", want), vals["mincase"].node, show(v["mincase"]))
+          soft(content_root(v["mincase"]) == ("s", want), content_root(v["mincase"])), vals["mincase"].node, show(v["mincase"]))
     # effects: what is stored is later updated in place (compare-and-replace), so it must not share storage with anything of the contributor
     # nor the label lists with each other
     fresh = {}
@@ -503,6 +600,7 @@ def _store_maxmin(ctx):
     paths = good_paths(ctx, I)
     A = Agg(ctx)
     R, M = ("s", res), ("s", mm)
+    canon_paths(paths, {("attr", M, "ext"): 2, ("attr", M, "ext_x"): 2})
     want = {"mx": ("ext", 0), "mx_x": ("ext_x", 0), "mn": ("ext", 1), "mn_x": ("ext_x", 1)}
     A.req("_store_maxmin: a path on which the case is new records it", bool(paths), fn, nontrivial=False)
     for P in paths:
@@ -519,7 +617,7 @@ def _store_maxmin(ctx):
                 continue
             e = es[0]
             ok = P.norm(e.index) == ("tup", FULL, ("s", j)) and col_of(P.norm(e.value), ("attr", M, src)) == col
-            A.req(key, ok, e.node, {"index": show(P.norm(e.index)), "value": show(P.norm(e.value))})
+            A.req(key, soft(ok, P.norm(e.index), P.norm(e.value)), e.node, {"index": show(P.norm(e.index)), "value": show(P.norm(e.value))})
         cs = [e for e in P.stores() if P.norm(e.target) == ("attr", R, "cases")]
         ok = len(cs) == 1 and P.norm(cs[0].index) == ("s", j) and P.norm(cs[0].value) == ("s", case)
         A.req("_store_maxmin: the case label goes to the same slot j", ok, cs[0].node if cs else fn)
@@ -562,6 +660,7 @@ def _frf_minus(ctx):
             ok = a0 is not None and a0[0] == "op" and a0[1] == "abs"
         E, EX = ("attr", mmn, "ext"), ("attr", mmn, "ext_x")
         c0, c1 = ("tup", FULL, ("c", 0)), ("tup", FULL, ("c", 1))
+        canon_paths([P], {E: 2, EX: 2})
         # what the two tables hold when extrema() is called: the stores are replayed in order (a value that reads a region written before
         # is the value written there), so one assignment or several steps (copy the column, then negate it in place) are the same thing
         final = {}
@@ -860,7 +959,13 @@ def r3_envelope(ctx):
                                                      "higher slots are dropped")
             if f is True:
                 n[True] += 1
-                A.req(k_first, v == cur or content_root(v) == cur, e.node, show(v))
+                okf = v == cur or content_root(v) == cur
+                if not okf:
+                    # provably not "the current spectrum": it is combined with something (a maximum / minimum), or it is not used at all;
+                    # any other construction around it is not understood
+                    combined = v[0] == "call" and v[1] in ("np.fmax", "np.maximum", "np.fmin", "np.minimum", "min", "max", "np.nanmax", "np.nanmin")
+                    okf = False if (combined or cur not in _subterms(v)) else None
+                A.req(k_first, okf, e.node, show(v))
             elif f is False:
                 n[False] += 1
                 old = ("idx", ENV, q)
